@@ -873,8 +873,13 @@ func (t *wordMatchTree) matches(cp *contentProvider, cost int, known map[matchTr
 				byteMatchSz: uint32(len(t.word)),
 				fileName:    t.fileName,
 			})
+			offset = relEndOffset
+		} else {
+			// A rejected occurrence can overlap one that is delimited by word
+			// boundaries ("xa a a" contains \ba a\b at offset 3), so only
+			// step over its first byte.
+			offset = relStartOffset + 1
 		}
-		offset += idx + len(t.word)
 	}
 
 	t.found = found
